@@ -343,6 +343,10 @@ def write_evidence(ctx, rule, extra=None, level="model_checking"):
           "coverage": cov, "assumptions": ctx.assumptions, "wall_s": round(time.time() - ctx.t0, 1),
           "violations": len(ctx.violations), "known_findings_reported": ctx.known}
     os.makedirs(os.path.join(VERIF, "evidence"), exist_ok=True)
-    with open(os.path.join(VERIF, "evidence", ctx.pid + ".json"), "w") as f:
+    evdir = os.path.join(VERIF, "evidence")
+    if REPO != "/repo":      # a run against a scratch copy (mutation study) must not replace the evidence of /repo itself
+        evdir = os.path.join(VERIF, ".work", "evidence-of-scratch-runs")
+        os.makedirs(evdir, exist_ok=True)
+    with open(os.path.join(evdir, ctx.pid + ".json"), "w") as f:
         json.dump(ev, f, indent=1, sort_keys=True)
         f.write("\n")
